@@ -148,7 +148,14 @@ class Engine(GenericConcreteEngine[Callable[..., Any]]):
                 return tree, False, ("backtracking through binary operations is not implemented",)
             case Transfer(target=target) as transfer:
                 if target.engine == preferred:
-                    return transfer.reapply(operation.apply(target)), True, ()
+                    upstream = operation.apply(target)
+                    if upstream.engine == transfer.destination:
+                        # The operation handed back a relation that already
+                        # lives in the destination engine (a join with a
+                        # join identity relation returns the other operand),
+                        # so there is nothing left to transfer.
+                        return upstream, True, ()
+                    return transfer.reapply(upstream), True, ()
                 else:
                     upstream, done, messages = target.engine.backtrack_unary(operation, target, preferred)
                     if upstream is target:
